@@ -57,8 +57,9 @@ def final_step(I, what, wbranches):
                smt.BoolC(passed(I, g)), what)
     # the build gate looked at the very integration branches that are queued / merged
     seen = [e[2] for e in I.ghost['trace'] if e[0] == 'gate' and e[1] == 'check_build_status']
+    # (compared by value: passing a copy of the list is fine)
     tagged(I, 'C06', 'the build gate examined the integration branches that are %s' % what, 'site',
-           smt.BoolC(bool(seen) and seen[-1] is wbranches), what)
+           I.eq(seen[-1], wbranches) if seen else smt.FALSE, what)
 
 
 def base_env(prop):
